@@ -30,7 +30,7 @@ ASSUMPTIONS = ["state lifetime is an interval: idle < MAX_TRANSMIT_WAIT must sti
                "later-block request may also be refused with 4.08"]
 EXPECTED_PROBES = ["continue_231", "final_block_handler", "gap_or_overlap", "unknown_transfer", "expired_transfer",
                    "wrong_payload_length", "block2_slice", "block2_beyond_end", "block2_without_rendering",
-                   "interleaved_keys", "lifetime_gray_zone", "restart_at_zero", "concurrent_requests"]
+                   "interleaved_keys", "lifetime_gray_zone", "restart_at_zero", "concurrent_requests", "assembly_in_front_of_a_site"]
 
 T = 93.0
 METHODS = {"GET": rc.GET, "PUT": rc.PUT, "POST": rc.POST, "FETCH": rc.FETCH}
@@ -232,7 +232,7 @@ def gen(r, tier):
         for _ in range(r.randint(1, 2)):
             tcp.append({"t": round(r.uniform(0, 5), 3), "rlen": r.choice([100, 1024, 1025, 2048, 3000, 5000, 8192, 8193, 20000]),
                         "mms": r.choice([1152, 2300, 3400, 8320, 70000]), "szx": r.choice([7, 7, None, 6, 4])})
-    return {"nclients": nclients, "ops": ops, "same_host": r.chance(0.3), "tcp": tcp}
+    return {"nclients": nclients, "ops": ops, "same_host": r.chance(0.3), "tcp": tcp, "front": r.chance(0.25)}
 
 
 def systematic(tier):
@@ -258,6 +258,8 @@ def systematic(tier):
                 s["t"] = round(0.1 * (j + 1), 3)
                 ops.append(s)
             out.append({"nclients": 1, "ops": ops})
+            if perm == tuple(range(nb)) or perm == tuple(reversed(range(nb))):
+                out.append({"nclients": 1, "ops": [dict(o) for o in ops], "front": True})
     # two clients, same key, interleaved in lock step
     tr0 = {"tid": 0, "c": 0, "method": "POST", "path": "r0", "query": "k=0", "szx": 0, "total": 40, "seed": 3, "rlen": 8}
     tr1 = dict(tr0, tid=1, c=1, seed=9, total=41)
@@ -267,6 +269,7 @@ def systematic(tier):
     for j, s in enumerate(ops):
         s["t"] = round(0.1 * (j + 1), 3)
     out.append({"nclients": 2, "ops": ops})
+    out.append({"nclients": 2, "ops": [dict(o) for o in ops], "front": True})
     # idle gaps around the lifetime between block 0 and block 1
     for gap in (T - 0.5, T + 0.5, 2 * T - 0.5, 2 * T + 0.5, 3 * T):
         st = steps_of({"tid": 0, "c": 0, "method": "PUT", "path": "r0", "query": "", "szx": 0, "total": 30, "seed": 1, "rlen": 8})
@@ -446,10 +449,27 @@ def execute(sim, scn):
 
         render_get = render_put = render_post = render_fetch = _do
 
+    class Front(resource.Resource):
+        """a resource that owns a Site and serves all its requests through it, doing the block-wise assembly itself (the
+        way aiocoap-rd's StandaloneResourceDirectory is arranged)"""
+
+        def __init__(self, inner):
+            super().__init__()
+            self.inner = inner
+
+        async def needs_blockwise_assembly(self, request):
+            return await self.inner.needs_blockwise_assembly(request)
+
+        async def render(self, request):
+            return await self.inner.render(request)
+
     async def setup():
         site = resource.Site()
         site.add_resource(["r0"], Rec("r0"))
         site.add_resource(["r1"], Rec("r1"))
+        if scn.get("front"):
+            sim.probe("assembly_in_front_of_a_site")
+            site = Front(site)
         if scn.get("tcp"):
             import aiocoap
             from simkit.stream import SimStreamNet
